@@ -540,26 +540,47 @@ def vertexEntry (v : C05.Vertex Corner) : VEntry :=
 def blockEntry (i : Nat) (o : OpDecl) (verts : List Nat) : BEntry :=
   ⟨verts, o.zone, o.counts, o.gkind, o.grading, "// " ++ toString i⟩
 
+/-- non-deleted operations in depot order -/
+def declOps (d : Decl) : List OpDecl := liveOps d.depot
+
+/-- `Mesh._add_vertices` for all of them: the C05 model (slaves = merged pairs known at assembly) -/
+def declVA (d : Decl) : C05.VList Corner String × List (List (C05.Vertex Corner)) :=
+  C05.assemble closeCorner (C05.slavePatches d.mergedBefore) {} ((declOps d).map OpDecl.toC05)
+
+/-- `Block.indexes` of every block -/
+def declBlocks (d : Decl) : List (List Nat) := (declVA d).2.map (·.map (·.index))
+
+/-- operation and vertex numbers of every block -/
+def declOb (d : Decl) : List (OpDecl × List Nat) := (declOps d).zip (declBlocks d)
+
+def patchesOf (d : Decl) (ob : List (OpDecl × List Nat)) : List PEntry :=
+  d.modifyAfter.foldl modifyPatch
+    (ob.foldl (fun ps x => addPatches ps x.1 x.2) (d.modifyBefore.foldl modifyPatch []))
+
+def facesOf (ob : List (OpDecl × List Nat)) : List FEntry := ob.foldl (fun fs x => addFaces fs x.1 x.2) []
+
+def edgesOf (ob : List (OpDecl × List Nat)) : List EEntry := ob.foldl (fun es x => addEdges es x.1 x.2) []
+
+def declGeometry (d : Decl) : List GEntry :=
+  d.geomAfter.foldl addGeometry
+    ((d.depot.flatMap (·.geometry)).foldl addGeometry (d.geomBefore.foldl addGeometry []))
+
+def blocksOf (ob : List (OpDecl × List Nat)) : List BEntry :=
+  ob.zipIdx.map (fun x => blockEntry x.2 x.1.1 x.1.2)
+
+/-- the dictionary, given the vertex list and the vertex numbers of the blocks -/
+def dictOf (d : Decl) (vl : C05.VList Corner String) (ob : List (OpDecl × List Nat)) : Dict :=
+  { foamFile := d.foamFile, headComment := d.headComment, settings := d.settings,
+    geometry := declGeometry d,
+    vertices := vl.vertices.map vertexEntry,
+    blocks := blocksOf ob,
+    edges := edgesOf ob, faces := facesOf ob, patches := patchesOf d ob, default := d.default,
+    merged := d.mergedBefore ++ d.mergedAfter, footer := d.footer }
+
 /-- `Mesh.assemble` followed by the calls made after it, as the dictionary that `write` prints -/
 def assembleDecl (d : Decl) : Dict :=
-  let ops := liveOps d.depot
-  let slaves := C05.slavePatches d.mergedBefore
-  let va := C05.assemble closeCorner slaves {} (ops.map OpDecl.toC05)
-  let blocks := va.2.map (·.map (·.index))
-  let ob := ops.zip blocks
-  let patches0 := d.modifyBefore.foldl modifyPatch []
-  let patches1 := ob.foldl (fun ps (o, vs) => addPatches ps o vs) patches0
-  let patches := d.modifyAfter.foldl modifyPatch patches1
-  let faces := ob.foldl (fun fs (o, vs) => addFaces fs o vs) []
-  let edges := ob.foldl (fun es (o, vs) => addEdges es o vs) []
-  let geom0 := d.geomBefore.foldl addGeometry []
-  let geom1 := (d.depot.flatMap (·.geometry)).foldl addGeometry geom0
-  let geom := d.geomAfter.foldl addGeometry geom1
-  { foamFile := d.foamFile, headComment := d.headComment, settings := d.settings, geometry := geom,
-    vertices := va.1.vertices.map vertexEntry,
-    blocks := ob.zipIdx.map (fun ((o, vs), i) => blockEntry i o vs),
-    edges := edges, faces := faces, patches := patches, default := d.default,
-    merged := d.mergedBefore ++ d.mergedAfter, footer := d.footer }
+  let va := declVA d
+  dictOf d va.1 ((declOps d).zip (va.2.map (·.map (·.index))))
 
 /-! ### checks on the dictionary -/
 
@@ -610,6 +631,22 @@ def takeGroups : Nat → Nat → List String → Option (List (List String) × L
       if ws.length < m then none
       else (takeGroups k m (ws.drop m)).map (fun (gs, rest) => (ws.take m :: gs, rest))
 
+def strsToNats : List String → Option (List Nat)
+  | [] => some []
+  | s :: ss => do
+      let n ← s.toNat?
+      let r ← strsToNats ss
+      some (n :: r)
+
+/-- `8 i0 … i7` groups -/
+def decCells : List (List String) → Option (List (List Nat))
+  | [] => some []
+  | ("8" :: ix) :: cs => do
+      let c ← strsToNats ix
+      let r ← decCells cs
+      some (c :: r)
+  | _ :: _ => none
+
 /-- parser of the VTK token stream: points and hexahedra -/
 def parseVtk (hdrLen : Nat) (ws : List String) : Option (List (List String) × List (List Nat)) :=
   match ws.drop hdrLen with
@@ -620,9 +657,7 @@ def parseVtk (hdrLen : Nat) (ws : List String) : Option (List (List String) × L
       | "CELLS" :: nc :: _ :: rest => do
           let nc ← nc.toNat?
           let (cells, _) ← takeGroups nc 9 rest
-          let cells ← cells.mapM (fun c => match c with
-            | "8" :: ix => ix.mapM String.toNat?
-            | _ => none)
+          let cells ← decCells cells
           some (pts, cells)
       | _ => none
   | _ => none
@@ -840,8 +875,7 @@ def handleRender (args : List String) : Option String := do
 def handleVtk (args : List String) : Option String := do
   let (decl, rest) ← rdDecl.run args
   if !rest.isEmpty then none
-  let ops := liveOps decl.depot
-  let va := C05.assemble closeCorner (C05.slavePatches decl.mergedBefore) {} (ops.map OpDecl.toC05)
+  let va := declVA decl
   let pts := va.1.vertices.map (·.pos.vtk)
   let cells := va.2.map (·.map (·.index))
   let out := renderVtk CBV.Gen.c06VtkHeader pts cells
